@@ -157,11 +157,11 @@ sig_source_stop_filter(const struct video_source_s* source)
 }
 
 static void
-sig_source_stop_sink(const struct video_source_s* source)
+sig_filter_stop_sink(const struct video_filter_s* filter)
 {
     // This is a pretty hacky way of signaling a video stream to stop
     // the sink thread.
-    struct video_s* self = containerof(source, struct video_s, source);
+    struct video_s* self = containerof(filter, struct video_s, filter);
     self->sink.is_stopping = 1;
 }
 
@@ -211,14 +211,16 @@ acquire_init(void (*reporter)(int is_error,
                  &video->filter, i, 1ULL << 30, &video->sink.in) == Device_Ok,
                "[stream %d] Failed to initialize video filter controller",
                i);
+        // source --stop--> filter --stop--> sink: each stage stops the next
+        // one only after it has passed on everything it received.
+        video->filter.sig_stop_sink = sig_filter_stop_sink;
         EXPECT(video_source_init(&video->source,
                                  i,
                                  -1,
                                  &video->sink.in,
                                  &video->filter.in,
                                  await_filter_reset,
-                                 sig_source_stop_filter,
-                                 sig_source_stop_sink) == Device_Ok,
+                                 sig_source_stop_filter) == Device_Ok,
                "[stream %d] Failed to initialize video source controller",
                i);
     }
